@@ -92,6 +92,7 @@ def _strategy(out):
     return "other", False
 
 
+@C.sync_scheduler
 def check_merge(spec):
     import dask.dataframe as dd
 
@@ -201,6 +202,7 @@ def merge_case(draw):
 
 
 # --------------------------------------------------------------------------
+@C.sync_scheduler
 def check_asof(spec):
     import dask.dataframe as dd
 
@@ -279,6 +281,7 @@ def asof_case(draw):
 
 
 # --------------------------------------------------------------------------
+@C.sync_scheduler
 def check_concat(spec):
     import dask.dataframe as dd
 
